@@ -9,6 +9,7 @@
 -/
 import IocProofs.Lemmas.Scan
 import IocProofs.Lemmas.ScanHand
+import IocProofs.Lemmas.ScanValue
 namespace Ioc.C11
 open Ioc Ioc.Scan
 
@@ -63,6 +64,15 @@ theorem C11_custom_exact (p : TagProc) (hx : p.extract = none) (ht : p.tag ≠ [
       intro d hd f _; simp at hd; subst hd; exact noPanic_of_extract_none _ hx f)
   · have := propsOf_custom p hx ht (scan sh)
     simpa [properties] using this
+
+/-- THE VALUE IS HANDED OVER AS WRITTEN.  The value part NewProperty (= `Tag.parse?`, see C11_custom_exact) stores for a
+    tag text is the text before the first comma, byte for byte — leading and trailing blanks and tabs included, a value
+    made of blanks only included — whenever that text holds no bracket; whatever follows the comma (`rest`) has no
+    influence on it.  (`sep:" | ,style=wide"` hands `" | "` to the processor of `sep`, `value:"  "` is the literal of
+    two blanks.) -/
+theorem C11_value_verbatim (v rest : Bytes) (hv : Tag.PlainVal v) :
+    Tag.parse? v = some (v, []) ∧ ∃ a, Tag.parse? (v ++ Tag.cComma :: rest) = some (v, a) :=
+  ⟨Tag.parse?_plain v hv, Tag.parse?_plain_comma v rest hv⟩
 
 /-- Frame: a field can be written only if it is exported, reached through anonymous untagged by-value structs only,
     and recognised by some processor (its tag, or its ExtractHandler). -/
@@ -207,6 +217,11 @@ example : (writes exProcs ex).length = 8 ∧ (scan ex).length = 13 := by decide
 example : exProcs.Perm exProcs.reverse ∧ exProcs ≠ exProcs.reverse :=
   ⟨(List.reverse_perm exProcs).symm, by simp [exProcs, builtinProcs, procLogger, customProc, ntLogger, ntConfiguration]⟩
 
+-- C11_value_verbatim: the hypothesis holds for values that are blanks, begin or end with a blank or a tab, and the parse keeps them
+example : Tag.PlainVal (ofString " | ") ∧ Tag.PlainVal (ofString "  ") ∧ Tag.PlainVal [9, 118, 32] ∧
+    Tag.parse? (ofString " | ,style=wide") = some (ofString " | ", [(ofString "Style", [ofString "wide"])]) ∧
+    Tag.parse? (ofString "  ") = some (ofString "  ", []) ∧
+    (Tag.parse? (ofString " - ,a=(x, y) z")).map (·.1) = some (ofString " - ") := by decide
 end examples
 
 end Ioc.C11
